@@ -30,8 +30,7 @@ func (s *JSONSerializer) Serialize(msg wamp.Message) ([]byte, error) {
 
 // Deserialize decodes a json payload into a Message.
 func (s *JSONSerializer) Deserialize(data []byte) (wamp.Message, error) {
-	var v []any
-	err := codec.NewDecoderBytes(data, jh).Decode(&v)
+	v, err := decodeList(data, jh)
 	if err != nil {
 		return nil, err
 	}
